@@ -144,7 +144,11 @@ func (e *Engine) newPath(sol *Solver, prefix []byte) *Path {
 }
 
 func (p *Path) unsupported(format string, a ...interface{}) {
-	panic(pathEnd{endUnsupported, fmt.Sprintf(format, a...)})
+	chain := ""
+	for f, k := p.curFrame, 0; f != nil && k < 8; f, k = f.caller, k+1 {
+		chain += " <- " + f.fn.Name()
+	}
+	panic(pathEnd{endUnsupported, fmt.Sprintf(format, a...) + " [" + chain + "]"})
 }
 
 func (p *Path) fresh(base string) string {
